@@ -84,6 +84,7 @@ enum Op {
     Ev,
     Var,
     Sd,
+    Shift(i64),
 }
 
 enum Ctor {
@@ -207,6 +208,15 @@ fn cdf_run(log: &mut Log, tag: &str, d: i64, ctor: Ctor, ops: &[Op]) {
             }
             Op::Var => {
                 log.call("variance", json!({}), || projf(cdf.variance(), S_CDF as f64));
+            }
+            Op::Shift(k) => {
+                // iter_mut: replace the values by an order-preserving map (the documented use)
+                log.call("shift_values", json!({"k": k}), || {
+                    for e in cdf.iter_mut() {
+                        e.value += k as i32;
+                    }
+                    dump(&cdf)
+                });
             }
             Op::Sd => {
                 log.call("standard_deviation", json!({}), || projf(cdf.standard_deviation(), 1024.0));
@@ -379,6 +389,11 @@ fn drive_cdf(log: &mut Log, case: &mut u64) {
             ops.push(Op::Reduce);
             log.oblige("cdf_reduce");
             ops.extend(rand_query_ops(&mut rng, -span, span, 4, moments));
+        }
+        if rng.chance(1, 4) {
+            ops.push(Op::Shift(rng.range(-3, 3)));
+            log.oblige("cdf_iter_mut");
+            ops.extend(rand_query_ops(&mut rng, -span - 3, span + 3, 3, moments));
         }
         if rng.chance(1, 2) {
             let nn = rng.range(2, 8);
@@ -876,19 +891,36 @@ fn drive_integ(log: &mut Log, case: &mut u64) {
             let a = rng.range(-8, 8);
             let width = rng.range(1, 16);
             let b = a + width;
-            let hd = 16i64;
-            // shape: "lin" = one linear piece over [a, b]; "tent" = two pieces meeting at the midpoint
-            let tent = rng.chance(1, 3) && width % 2 == 0;
-            let ya = rng.range(0, 16);
-            let yb = rng.range(0, 16);
-            let ym = rng.range(std::cmp::max(ya, yb), 16);
-            let knots: Vec<(i64, i64)> = if tent { vec![(a, ya), ((a + b) / 2, ym), (b, yb)] } else { vec![(a, ya), (b, yb)] };
+            let hd = 128i64;
+            // shape: "lin" = one linear piece over [a, b]; "tent" = two pieces meeting at the midpoint (the first
+            // grid point the method adds); "peak" = two pieces of opposite slope +-sl meeting anywhere else: a
+            // density symmetric about its mode, the case the maximum search is made for
+            let shape = rng.below(3);
+            let tent = shape == 1 && width % 2 == 0;
+            let peak = shape == 2 && width >= 3;
+            let knots: Vec<(i64, i64)> = if peak {
+                let c = rng.range(a + 1, b - 1);
+                let sl = rng.range(1, 4);
+                let ym = sl * std::cmp::max(c - a, b - c) + rng.range(0, 8);
+                vec![(a, ym - sl * (c - a)), (c, ym), (b, ym - sl * (b - c))]
+            } else {
+                let ya = rng.range(0, 16);
+                let yb = rng.range(0, 16);
+                let ym = rng.range(std::cmp::max(ya, yb), 16);
+                if tent { vec![(a, ya), ((a + b) / 2, ym), (b, yb)] } else { vec![(a, ya), (b, yb)] }
+            };
+            let (ya, yb) = (knots[0].1, knots[knots.len() - 1].1);
             if knots.iter().all(|k| k.1 == 0) {
                 continue;
             }
             let rden = *rng.pick(&[1i64, 4, 16, 64]);
-            let rnum = rng.range(1, 8);
-            if tent {
+            let rnum = if peak { rng.range(1, 4) } else { rng.range(1, 8) };
+            if peak {
+                log.oblige("integ_peak");
+                if 2 * knots[1].0 != a + b {
+                    log.oblige("integ_peak_off_centre");
+                }
+            } else if tent {
                 log.oblige("integ_tent");
             } else {
                 log.oblige("integ_linear");
